@@ -382,3 +382,30 @@ Definition run (c : cfg) (abi : list (Z * Z)) (π : sched) (h : list msg) : stat
 
 (** selectors of an ABI are pairwise distinct (and so are the names, it is a Go map) *)
 Definition abi_ok (abi : list (Z * Z)) : Prop := NoDup (map fst abi) /\ NoDup (map snd abi).
+
+(* ------------------------------------------------------------------ process-local, transaction-scoped state *)
+
+(** The EVM keeper publishes the StateDB of the transaction being executed in process memory (NibiruBankKeeper.StateDB).
+    A handler first reuses a published pointer if there is one, else publishes a fresh one; when the handler is [guarded]
+    (a `defer … ClearTxStateDB` covers every exit after the publication) the pointer is gone when the handler returns,
+    otherwise an early error return leaves it behind.  A node RESTART forgets process memory.  The result of a handler
+    is 0 when it ran on a fresh StateDB and 1 when it ran on a stale one (then anything can happen). *)
+Record hmsg := mk_hmsg {
+  h_guarded : bool;       (* generated fact: the clearing defer follows the publication with no return in between *)
+  h_fails_early : bool    (* this execution returns an error between the publication and the place of the defer *)
+}.
+
+Definition handle (stale : bool) (m : hmsg) : bool * nat :=
+  (if h_guarded m then false else h_fails_early m || stale, if stale then 1%nat else 0%nat).
+
+(** [restarts] : for every message, whether the process is restarted just before it *)
+Fixpoint run_handlers (stale : bool) (h : list (bool * hmsg)) : list nat :=
+  match h with
+  | [] => []
+  | (restart, m) :: t =>
+      let stale0 := if restart then false else stale in
+      let '(stale1, r) := handle stale0 m in
+      r :: run_handlers stale1 t
+  end.
+
+Definition no_restarts (h : list (bool * hmsg)) : list (bool * hmsg) := map (fun x => (false, snd x)) h.
